@@ -118,6 +118,7 @@ def jaqal_import(
         else:
             importlib.reload(module)
 
+    fresh = module is None
     if module is None:
         try:
             if relative:
@@ -135,13 +136,26 @@ def jaqal_import(
     except AttributeError:
         submod_name = f"{module.__name__}.{obj_name}"
         ret = sys.modules.get(submod_name)
-        if ret and reload_module:
-            importlib.reload(ret)
+        try:
+            if ret and reload_module:
+                importlib.reload(ret)
 
-        if ret is None:
-            # Because we imported the spec correctly, Python knows how to find
-            # the submodules.  In particular, it can probe down into zip files.
-            ret = importlib.import_module(submod_name)
+            if ret is None:
+                # Because we imported the spec correctly, Python knows how to find
+                # the submodules.  In particular, it can probe down into zip files.
+                ret = importlib.import_module(submod_name)
+        except BaseException:
+            if fresh and (relative or evicted):
+                # The module this call loaded is of no use: forget it and
+                # put back what it replaced
+                for k in [
+                    k
+                    for k in sys.modules
+                    if k == mod_name or k.startswith(f"{mod_name}.")
+                ]:
+                    del sys.modules[k]
+                sys.modules.update(evicted)
+            raise
 
         return ret
 
